@@ -92,6 +92,16 @@ CHECKS = {
         'vs the extracted model on exhaustive and random step sequences, every observer compared after every step.',
    note=COMMON_NOTE + 'Theorems closed under the global context (no axioms). u64 overflow of block counts is outside the model.',
    tech='Rocq/Coq proof (invariant by induction over step histories) + model/implementation correspondence'),
+ 'C18': dict(cat='other', sec='DESIGN.md §6 C18, §12.3',
+   text='Partial by design: the MODULAR machinery of tm/num.py (Add/Mul/Div/Exp.__mod__, hard-coded residues, find_period, the binary loop, exp_mod_special_cases with all '
+        '818 table rows) is transcribed to Gallina and PROVED sound for all expression trees and all moduli (C18_mod_sound: the model answer equals eval(e) mod m whenever every '
+        'Exp exponent is >= 2; C18_binexp_mod_spec, C18_find_period_sound, C18_tables_sound, C18_hard_coded_residues, ...; the two repaired defects are refuted on the pre-fix '
+        'definitions), and model = library on every % case run. The simplifier (+ - * // **) and the comparisons have NO model: the library result is serialised and evaluated '
+        'with the extracted Coq integer semantics (NumExpr.eval) and compared with the same operation on the operand values - a differential test against a Coq-defined '
+        'semantics, labelled as such. Four further defect classes of num.py found this way (F9 x<int ignores the int, F10 symbolic ordering heuristics, F11 identity __eq__, '
+        'F12 Exp.__mod__ early returns) are recorded as known findings, attributed at run time by counterfactuals; anything else is a VIOLATION.',
+   note=COMMON_NOTE + 'CPython 3.12 (/root/.pyenv/versions/3.12.1) runs tm/num.py from /repo directly. Tet is excluded. Float tests in num.py for m >= 2^40 are unmodelled (none occurred).',
+   tech='Rocq/Coq proof for % (modular arithmetic) + differential test of the other operators against the extracted Coq integer semantics'),
 }
 
 def main():
